@@ -53,12 +53,16 @@ def havoc_result(C, ex, st, prefix, kinds):
 def make_op(C, opname):
     if opname == 'Const':
         return C.operator('Const', C.v_int(7))
+    if opname.startswith('FunctionIdentifier:'):
+        return C.operator('FunctionIdentifier', sstr(opname.split(':', 1)[1]))
     if opname in ('VariableIdentifierWrite', 'VariableIdentifierRead', 'FunctionIdentifier'):
         return C.operator(opname, sstr('x'))
     return C.operator(opname)
 
 
-CHILD_KINDS = ['Const', 'VariableIdentifierWrite', 'VariableIdentifierRead', 'FunctionIdentifier', 'Add', 'Assign', 'RootNode']
+CHILD_KINDS = ['Const', 'VariableIdentifierWrite', 'VariableIdentifierRead', 'FunctionIdentifier', 'Add', 'Assign', 'RootNode', 'Identical', 'TupleArgs']
+# top-level function identifiers: a user name and builtin names whose calls a "smart" evaluator might special-case
+FUNCTION_NAMES = ['x', 'if', 'min', 'contains']
 
 
 def child_node(C, kind, i):
@@ -71,6 +75,12 @@ def child_node(C, kind, i):
         return C.node(C.operator(kind, sstr('g%d' % i)), [leaf(i)])
     if kind == 'RootNode':
         return C.node(C.operator('RootNode'), [leaf(i)])
+    if kind == 'Identical':
+        # structurally identical non-leaf siblings (a call `same(7)` repeated): each must still be evaluated
+        return C.node(C.operator('FunctionIdentifier', sstr('same')), [C.node(C.operator('Const', C.v_int(7)))])
+    if kind == 'TupleArgs':
+        # the shape of call arguments `(p, q, r)`: RootNode(Tuple(RootNode(leaf) x 3))
+        return C.node(C.operator('RootNode'), [C.node(C.operator('Tuple'), [C.node(C.operator('RootNode'), [leaf(10 * i + j)]) for j in range(3)])])
     return C.node(C.operator(kind), [C.node(C.operator('VariableIdentifierWrite', sstr('w'))), leaf(i)])
 
 
@@ -89,7 +99,11 @@ def step_run(C, opname, k, mutable, kinds, child_kind='Const'):
         if isinstance(r, Ref) and r.path and r.path[-1][0] == 'index' and r.cell.id == holder['n'].cell.id:
             idx = r.path[-1][1]
         if idx is None or not (0 <= idx < k):
-            raise Unsupported('recursive evaluation of an unexpected node')
+            # the evaluator looked past its direct children (e.g. into a grandchild): recorded as an event no reference run contains
+            tag, r_ = havoc_result(C, ex_, st, 'stray', ['Int', 'Boolean'])
+            st.log.append(('child', -1, args[1] if len(args) > 1 else None))
+            st.notes.append(('child', -1, tag, r_))
+            return r_
         tag, r = havoc_result(C, ex_, st, 'child%d' % idx, kinds)
         st.log.append(('child', idx, args[1] if len(args) > 1 else None))
         st.notes.append(('child', idx, tag, r))
@@ -233,7 +247,7 @@ def replay_ce(ce):
     and the error with the reference: strict left-to-right, stop at the first failing child"""
     op = ce['operator']
     k = ce['children']
-    outcomes = dict((i, t) for i, t in ce['child_outcomes'])
+    outcomes = dict((i, t) for i, t in ce['child_outcomes'] if i >= 0)
     funcs = {}
     want_log = []
     failed = False
@@ -249,6 +263,25 @@ def replay_ce(ce):
             want_log.append(name)
             if t == 'ERR':
                 failed = True
+    ck = ce.get('child_kind', 'Const')
+    if ck == 'Identical':
+        # every child is the same call `same(7)`: the reference evaluates each of the k occurrences
+        funcs['same'] = 'log'
+        want_log = ['same'] * k
+        failed = False
+    elif ck == 'TupleArgs':
+        # each child is `(c_i(i), c_i(i), c_i(i))`: three calls per child, stopping at the first failing call
+        wl = []
+        failed = False
+        for i in range(k):
+            if failed:
+                break
+            if funcs['c%d' % i] == 'fail':
+                wl.append('c%d' % i)
+                failed = True
+            else:
+                wl += ['c%d' % i] * 3
+        want_log = wl
     funcs['x'] = 'log'
     entry = 'optree_mut' if ce['mutable'] else 'optree_ro'
     text = replay.case_text('c', entry, '%s %d %s' % (op, k, ce.get('child_kind', 'Const')), funcs=list(funcs.items()), vars=[('x', ('Int', 1))])
@@ -262,7 +295,7 @@ def replay_ce(ce):
         if failed:
             okk = okk and bool(res_ and res_[0] == 'Err' and res_[1] == 'CustomMessage' and res_[3] == 'Error: fail:%s' % want_log[-1])
         else:
-            arity = {'Neg': 1, 'Not': 1, 'Const': 0, 'VariableIdentifierWrite': 0, 'VariableIdentifierRead': 0, 'FunctionIdentifier': 1}.get(op, 2)
+            arity = {'Neg': 1, 'Not': 1, 'Const': 0, 'VariableIdentifierWrite': 0, 'VariableIdentifierRead': 0, 'FunctionIdentifier': 1}.get(op.split(':')[0], 2)
             if op not in ('RootNode', 'Tuple', 'Chain') and arity != k:
                 # all children succeeded: the operator must have been applied, and a fixed-arity operator rejects a wrong argument count
                 okk = okk and bool(res_ and res_[0] == 'Err' and res_[1] == 'WrongOperatorArgumentAmount')
@@ -300,7 +333,7 @@ def make_units(tier, seed, pid):
     timeout_ms = 60000 if tier == 'quick' else 600000
     units = []
     maxk = 3 if tier == 'quick' else 4
-    for op in OPERATORS:
+    for op in OPERATORS + ['FunctionIdentifier:%s' % n for n in FUNCTION_NAMES[1:]]:
         for k in range(0, maxk + 1):
             if k >= 3 and tier == 'quick' and op not in ('Tuple', 'Chain', 'Add', 'And', 'Or', 'Assign', 'FunctionIdentifier', 'RootNode'):
                 continue
